@@ -533,6 +533,9 @@ pub fn run(a: &Args, r: &mut Report) {
             kamino(r, &mut g);
             solend(r, &mut g);
             drift(r, &mut g);
+            // the price adapter of the pass-through banks (Pyth and Switchboard variants of the three
+            // venues), a quarter of the cases at the overflow cliff of the adjustment
+            crate::c09::venue_case(r, &mut g);
             n += 1;
         }
     }
